@@ -214,7 +214,9 @@ func c08Prop(c c08Case) common.Result {
 		}
 		if expectCert {
 			formed++
-			if now != cur+1 && tcBefore < cur {
+			// a replica that is still in the timed-out view moves on to the next one; a replica that is behind that view
+			// moves forward, at most into the view after the certificate's
+			if tcBefore < cur && ((view == cur && now != cur+1) || (view > cur && (now <= cur || now > view+1))) {
 				return common.Fail("tc-wrong-step:"+c.Rules, "%s: the certificate for view %d moved the replica from view %d to %d", desc, view, cur, now)
 			}
 			// the certificate is built from those messages only and verifies elsewhere
